@@ -175,8 +175,11 @@ def gen_loop_case(rng, max_seg=40):
         if lossless:
             return []
         return sorted(rng.sample(range(span), min(span, rng.choice([0, 1, 1, 2, 3, 4, 6]))))
-    return {'kind': 'loop', 'cc': cc, 'nseg': nseg, 'rtt_estimate': rtt, 'ddelays': (slow or delays)(), 'adelays': (slow or delays)(),
-            'ddrops': drops(), 'adrops': drops()}
+    c = {'kind': 'loop', 'cc': cc, 'nseg': nseg, 'rtt_estimate': rtt, 'ddelays': (slow or delays)(), 'adelays': (slow or delays)(),
+         'ddrops': drops(), 'adrops': drops()}
+    if cc == 'reno' and rng.random() < 0.2:
+        c['ccmss'] = rng.choice([100, 256, 1000, 1460])      # TCPReno(mss=...): a legal, unusual configuration
+    return c
 
 
 def enum_loop_cases(max_seg, small=False):
@@ -210,16 +213,22 @@ def run_loop_impl(case):
                    on_put=lambda a: sinklog.append((a.packet_id, a.ack, copy.deepcopy(sink.recv_buffer))))
     sink.out = ackpath
     datapath = Path(env, sink, case['ddelays'], case['ddrops'])
-    cc = make_cc(case['cc'])
-    sr = SenderRun(env, case['cc'], cc, case['rtt_estimate'], case['nseg'] * MSS, datapath)
+    seg = seg_of(case)
+    cc = make_cc(case['cc'], mss=seg, cwnd=max(512, seg))
+    sr = SenderRun(env, case['cc'], cc, case['rtt_estimate'], case['nseg'] * seg, datapath)
     late.target = sr
     ended = sr.run()
     return sr, sink, ended, sinklog, datapath, ackpath
 
 
+def seg_of(case):
+    """the MSS the congestion controller of the case is built with (the flow is a whole number of such segments)"""
+    return case.get('ccmss', MSS) if case['cc'] == 'reno' else MSS
+
+
 def loop_oracle(case, sr, sink, ended):
     fails = []
-    size = case['nseg'] * MSS
+    size = case['nseg'] * seg_of(case)
     if sr.error and sr.error[0] != 'budget':
         x = sr.error[1]
         fails.append({'what': f'the run raised {type(x).__name__}: {x} (during {sr.error[0]})',
@@ -342,7 +351,7 @@ def run(ctx):
     for i, c in loops:
         runs[i] = run_loop_impl(c)
     smodel = model_batch('tcpsender', [runs[i][0].text(i) for i, c in loops], 300)
-    kmodel = model_batch('tcpsink', [f'CASE {i}\n' + '\n'.join(f'P {pid} {MSS}' for pid, a, b in runs[i][3]) + '\nEND'
+    kmodel = model_batch('tcpsink', [f'CASE {i}\n' + '\n'.join(f'P {pid} {runs[i][0].sender.mss}' for pid, a, b in runs[i][3]) + '\nEND'
                                      for i, c in loops], 500)
     lines_compared = 0
     for i, c in loops:
@@ -384,7 +393,7 @@ def run(ctx):
             disagreements.append({'case': clean(c), 'detail': f'sink (in loop) arrival {d[0]}: impl `{d[1]}` model `{d[2]}`',
                                   'impl': slines[:60], 'model': (km or [])[:60]})
         # the sink oracle applies inside the loop as well
-        for f in sink_oracle({'arrivals': [[pid, MSS] for pid, a, b in sinklog]}, [a for pid, a, b in sinklog], None):
+        for f in sink_oracle({'arrivals': [[pid, sr.sender.mss] for pid, a, b in sinklog]}, [a for pid, a, b in sinklog], None):
             f.update(case=clean(c), trace=slines[:80])
             oracle_failures.append(f)
         for f in loop_oracle(c, sr, sink, ended):
